@@ -6,10 +6,9 @@ pub fn init() {
     INIT.call_once(|| {
         // recorded findings are excluded by their root-cause classifiers, exactly as in `check`
         if let Ok(kf) = acbverif::engine::load_known_findings() { acbverif::engine::set_listed(kf.iter().filter(|f| f.status == "known").map(|f| f.id.clone())); }
-        std::panic::set_hook(Box::new(|info| {
-            let msg = format!("{info}");
-            eprintln!("PANIC: {msg}");
-        }));
+        // the harness's own hook: records location and message for engine::guard, which the known-finding classifiers read
+        // (a hook of our own here would leave them with "?" and turn every recorded overflow panic into a violation)
+        acbverif::engine::install_panic_hook();
     });
 }
 
